@@ -247,7 +247,7 @@ def cv_case(routine):
         case['n_cv'] = draw(st.sampled_from([1, 2, 2, 3]))
         case['use_correction'] = bool(case['n_cv'] > 1 and draw(st.booleans()))
         case['boot_type'] = 'both' if dual else draw(st.sampled_from(['both', 'pattern', 'rdm']))
-        case['fitters'] = draw(fitters_for(case, allow_slow=draw(st.integers(0, 19)) == 0))
+        case['fitters'] = draw(fitters_for(case, allow_slow=draw(st.integers(0, 9)) == 0))
         case['draws'] = draw(draws_for(case, case['boot_type'], case['N'],
                                        collapse_rdm=0.08, collapse_pat=0.12))
         return case
@@ -311,7 +311,7 @@ def crossval_case(draw):
     if case['ceil'] == 'given' and any(
             len(U.expand_pat(labels, [pg[k] for k in f['test_pat']])) <= 2 for f in folds):
         case['ceil'] = 'none'   # cv_noise_ceiling is not defined for a fold without pairs
-    case['fitters'] = draw(fitters_for(case, allow_slow=draw(st.integers(0, 19)) == 0))
+    case['fitters'] = draw(fitters_for(case, allow_slow=draw(st.integers(0, 9)) == 0))
     case['draws'] = []
     return case
 
@@ -415,6 +415,15 @@ def check_rerun(case, call, res):
         require(a[key].shape == b[key].shape and same(a[key], b[key]),
                 'rerun with the same seed changed %s (max diff %.3g)' % (
                     key, core.maxdiff(a[key], b[key])), 'rerun:' + key)
+    # ... and once more on the very objects of the first run (the same data, model and fitter
+    # objects): nothing an earlier evaluation leaves behind on them may enter the next one
+    with U.harness(case['seed'], case['draws']), core.watchdog(WATCHDOG_S):
+        res3 = lib(call, True)
+    c = result_arrays(res3)
+    for key in a:
+        require(a[key].shape == c[key].shape and same(a[key], c[key]),
+                'rerun with the same seed on the same data / model objects changed %s (max diff '
+                '%.3g)' % (key, core.maxdiff(a[key], c[key])), 'rerun-same-objects:' + key)
 
 
 class Events:
